@@ -1,7 +1,8 @@
 (** C16 — store writes notify exactly the fields on the written path.
     Statements only; proofs live in Store/PathsProofs.v and Store/KeyedProofs.v. *)
 From Coq Require Import List Arith Bool ZArith.
-From LV Require Import Store.Paths Store.PathsProofs Store.Keyed Store.KeyedProofs.
+From LV Require Import Base.Sexp Store.Paths Store.PathsProofs Store.Keyed Store.KeyedProofs
+                       Store.Sim Store.SimProofs.
 Import ListNotations.
 
 (** a write through the field at path p wakes a reader of the field at path r iff one of the
@@ -109,3 +110,33 @@ Theorem C16_slots_injective_prefix_refuted :
   fk_get 8%Z f = Some (1, 1) /\ fk_get 20%Z f = Some (1, 3).
 Proof. exact slots_injective_prefix_refuted. Qed.
 Print Assumptions C16_slots_injective_prefix_refuted.
+
+(** ---- the simulation that is compared with the implementation (Store/Sim.v): store value,
+    KeyMap, one ordered subscriber set per trigger, one source set per effect, run queue ---- *)
+
+(** after the initial effect runs and ANY history of writes / patches / pokes / reports, under
+    any executor schedule and any FieldKeys visiting orders, the subscription state is
+    consistent (subscriber sets and source sets mirror each other, nothing is left queued)
+    and every effect's sources are the track_field sets of the fields it last read *)
+Theorem C16_reachable_states_consistent :
+  forall sh readers sched kcs v hs, quiescent (length readers) (after sh readers sched kcs v hs).
+Proof. exact reachable_quiescent. Qed.
+Print Assumptions C16_reachable_states_consistent.
+
+(** end to end: in any such state, dropping a write guard wakes exactly the effects whose last
+    run read a field related (prefix either way) to the written path *)
+Theorem C16_sim_write_wakes_exactly_related :
+  forall sh readers sched kcs v hs kc chain new s1,
+    let s := after sh readers sched kcs v hs in
+    do_set sh kc s chain new = (s1, true) ->
+    exists k p, forall e, exists rs,
+      reads s e rs /\ (In e (st_queue s1) <-> exists r, In r rs /\ wakes_k k p r = true).
+Proof. exact sim_write_wakes_exactly_related. Qed.
+Print Assumptions C16_sim_write_wakes_exactly_related.
+
+(** the same for a plain field guard and a reader of one field, spelled with the prefix relation *)
+Theorem C16_sim_field_write_wakes_iff_prefix :
+  forall n s p e r, consistent n s -> st_queue s = [] -> reads s e [r] ->
+    (In e (st_queue (notify_all s (notified WField p))) <-> (is_prefix p r = true \/ is_prefix r p = true)).
+Proof. exact field_write_wakes_iff_prefix. Qed.
+Print Assumptions C16_sim_field_write_wakes_iff_prefix.
